@@ -53,7 +53,7 @@ def _cache_plugin():
 def gen_body(rng, n_items, marks, depth=0):
     """Random abstract body: list of items; `marks` is a one-element list counting the marks used."""
     items = []
-    kinds = ["text", "ctx", "mark", "ns", "inc", "cached", "loop"] + (["cap"] if depth < 2 else [])
+    kinds = ["text", "ctx", "mark", "ns", "inc", "cached", "loop", "call"] + (["cap"] if depth < 2 else [])
     for _ in range(n_items):
         k = rng.choice(kinds)
         if k == "text":
@@ -90,6 +90,9 @@ def concretise(items):
         elif k == "inc":
             lines.append('<%include file="inc.html"/>')
             prog += [{"op": "shared", "c": "inc"}, {"op": "emit", "tok": "i"}, {"op": "ctx"}]
+        elif k == "call":
+            lines.append('<%call expr="lib.wrap()">${who}</%call>')
+            prog += [{"op": "shared", "c": "lib"}, {"op": "emit", "tok": "w"}, {"op": "ctx"}, {"op": "emit", "tok": "w"}]
         elif k == "cached":
             lines.append("${cd()}")
             prog += [{"op": "shared", "c": "cache", "kw": CACHE_KW}, {"op": "emit", "tok": "c"}]
@@ -107,7 +110,7 @@ def gen_world(rng, npages, n_items, bodies=None):
     """Returns (files: {name: text}, progs: {page: flat program}); bodies: explicit page bodies instead of random ones."""
     files = {
         "base.html": "[ ${self.title()} | ${next.body()} ]\n",
-        "lib.html": '<%def name="hello(n)">h ${n}</%def>\n',
+        "lib.html": '<%def name="hello(n)">h ${n}</%def>\n<%def name="wrap()">w ${caller.body()} w</%def>\n',
         "inc.html": "i ${who}\n",
     }
     progs = {}
@@ -124,8 +127,11 @@ def gen_world(rng, npages, n_items, bodies=None):
         head = ['<%inherit file="base.html"/>', '<%namespace name="lib" file="lib.html"/>',
                 '<%def name="title()">T ${who}</%def>', '<%def name="cd()" cached="True" cache_key="cd" ' + " ".join('cache_%s="%s"' % (a, v) for a, v in CACHE_KW) + ">c</%def>"]
         files["p%d.html" % p] = "\n".join(head + lines) + "\n"
+        progs["p%d#title" % p] = [{"op": "emit", "tok": "T"}, {"op": "ctx"}]      # t.get_def("title").render(...)
         progs["p%d" % p] = ([{"op": "shared", "c": "base"}, {"op": "emit", "tok": "["}, {"op": "emit", "tok": "T"}, {"op": "ctx"},
                               {"op": "emit", "tok": "|"}] + prog + [{"op": "emit", "tok": "]"}])
+    for g in ("gets1", "gets2", "gets3"):
+        progs[g] = []                                                               # lookup calls only: no output
     return files, progs
 
 
@@ -221,7 +227,14 @@ def run_render_execution(sc, chooser, root, timeout=30.0):
     mako_dir = os.path.dirname(mako.__file__)
     tr = _Tracer(S, mako_dir, sc.get("all_files", False), sc.get("hot"))
     cap = sc["cap"]
-    lk = ml.TemplateLookup([root], collection_size=cap if cap else -1, cache_impl="mvdict")
+    dirs = [root] + ([os.path.join(root, "d2")] if sc.get("dirs2") else [])
+    moddir = None
+    if sc.get("moddir"):
+        # a fresh module directory per execution: the first compile of every URI writes its module file, reloads after an
+        # LRU eviction import it again
+        _CUR["n"] = _CUR.get("n", 0) + 1
+        moddir = os.path.join(root, "mods%d" % _CUR["n"])
+    lk = ml.TemplateLookup(dirs, collection_size=cap if cap else -1, cache_impl="mvdict", module_directory=moddir)
     lk._mutex = _SchedLock(S)
     if cap:
         class LoggedLRU(mu.LRUCache):
@@ -246,7 +259,10 @@ def run_render_execution(sc, chooser, root, timeout=30.0):
             st = context._buffer_stack
             keep.append(st)
             keep.append(st[0] if st else None)
-            own = stacks.setdefault(id(st), name) == name and (not st or stacks.setdefault(id(st[0]), name) == name)
+            cs = context.caller_stack
+            keep.append(cs)
+            own = (stacks.setdefault(id(st), name) == name and (not st or stacks.setdefault(id(st[0]), name) == name)
+                   and stacks.setdefault(id(cs), name) == name)
             S.log({"th": name, "ev": "mark", "n": n, "who": str(context.get("who")), "depth": len(st), "own": bool(own)})
             return ""
         return mk
@@ -257,9 +273,22 @@ def run_render_execution(sc, chooser, root, timeout=30.0):
             exc = ""
             sys.settrace(tr.tracer)
             try:
-                t = lk.get_template(page + ".html")
-                out = t.render(who=ctx, mk=marker(name))
-                toks = out.split()
+                if page.startswith("gets"):
+                    toks = []
+                    for op, uri, rel in sc["gets"][page]:
+                        if op == "get":
+                            lk.get_template(uri)
+                        elif op == "has":
+                            lk.has_template(uri)
+                        elif op == "adjust":
+                            lk.adjust_uri(uri, rel)
+                elif page.endswith("#title"):
+                    t = lk.get_template(page[:-6] + ".html")
+                    toks = t.get_def("title").render(who=ctx, mk=marker(name)).split()
+                else:
+                    t = lk.get_template(page + ".html")
+                    out = t.render(who=ctx, mk=marker(name))
+                    toks = out.split()
             except sched.Abort:
                 raise
             except BaseException as e:  # noqa
@@ -314,10 +343,12 @@ def solo_outputs(sc, root):
     return solo
 
 
-def write_files(root, files):
+def write_files(root, files, dirs2=False):
     os.makedirs(root, exist_ok=True)
+    os.makedirs(os.path.join(root, "d2"), exist_ok=True)
     for fn, text in files.items():
-        p = os.path.join(root, fn)
+        # with two directories the shared files live in the second one
+        p = os.path.join(root, "d2", fn) if dirs2 and fn in ("inc.html", "lib.html") else os.path.join(root, fn)
         with open(p, "w") as f:
             f.write(text)
         os.utime(p, (BASE, BASE))
@@ -335,7 +366,7 @@ def _render_job(job):
     import random
     sc, root, kind = job["sc"], job["root"], job["kind"]
     _cache_plugin()
-    write_files(root, job["files"])
+    write_files(root, job["files"], sc.get("dirs2", False))
     out = {"name": job["name"], "execs": [], "solo": None, "error": None}
     try:
         out["solo"] = solo_outputs(sc, root)
@@ -367,10 +398,11 @@ def render_jobs(run, thorough):
     jobs = []
     k = 6 if thorough else 1
 
-    def add(name, threads, npages, n_items, cap, kind, all_files=False, bodies=None, hot=None, **kw):
+    def add(name, threads, npages, n_items, cap, kind, all_files=False, bodies=None, hot=None, extra=None, **kw):
         rng = random.Random("%d-%s" % (run.seed, name))
         files, progs = gen_world(rng, npages, n_items, bodies)
         sc = {"threads": threads, "cap": cap, "all_files": all_files}
+        sc.update(extra or {})
         if hot:
             sc["hot"] = hot
         jobs.append(dict(name=name, sc=sc, files=files, progs=progs,
@@ -403,6 +435,24 @@ def render_jobs(run, thorough):
              ["util.py", "__setitem__"], ["util.py", "_manage_size"]])
     add("r2-memo-lexer-pb1", two_pages, 2, 0, 2, "pb", all_files=True, bound=1, limit=1000 if thorough else 15,
         bodies=[[("ctx",)], [("inc",)]], hot=[["lexer.py", "match_reg"]])
+    add("r3-memo-cache-pb1", {"A": ("p1", "A"), "B": ("p1", "B"), "C": ("p1", "C")}, 1, 0, 2, "pb", bound=1,
+        limit=2500 if thorough else 120, bodies=[[("cached",), ("ctx",)]],
+        hot=[["cache.py", None], ["template.py", "cache"], ["util.py", "__get__"]])
+    # the lookup half under a bounded collection: three threads doing get_template / has_template / adjust_uri over more URIs
+    # than the collection holds (BoundUnderConcurrency, no exception, nobody blocked)
+    lookups = {"gets1": [["get", "p1.html", None], ["get", "inc.html", None], ["adjust", "inc.html", "p1.html"], ["get", "lib.html", None],
+                         ["has", "p2.html", None], ["get", "base.html", None], ["adjust", "lib.html", "p2.html"]],
+               "gets2": [["get", "lib.html", None], ["adjust", "inc.html", "p1.html"], ["get", "p2.html", None], ["has", "nothing.html", None],
+                         ["get", "inc.html", None], ["get", "p1.html", None]],
+               "gets3": [["get", "base.html", None], ["get", "p2.html", None], ["adjust", "base.html", "p1.html"], ["get", "inc.html", None],
+                         ["adjust", "inc.html", "p1.html"], ["get", "lib.html", None]]}
+    getters = {"A": ("gets1", "A"), "B": ("gets2", "B"), "C": ("gets3", "C")}
+    add("l3-gets-cap1-random", getters, 2, 2, 1, "random", num=30 * k, p=0.04, extra={"gets": lookups})
+    add("l3-gets-cap2-pct", getters, 2, 2, 2, "pct", num=30 * k, depth=3, length=3000, extra={"gets": lookups})
+    # a module directory and two template directories; a def rendered on its own (get_def) next to full renders
+    mixed = {"A": ("p1", "A"), "B": ("p1#title", "B"), "C": ("p2", "C")}
+    add("r3-moddir-2dirs-random", mixed, 2, 5, 1, "random", num=25 * k, p=0.02, extra={"moddir": True, "dirs2": True})
+    add("r2-moddir-pct", two_pages, 2, 5, 2, "pct", num=25 * k, depth=3, length=3000, extra={"moddir": True})
     # directed: every single preemption inside TemplateLookup.adjust_uri / filename_to_uri (the URI cache is an LRU that
     # other threads trim) while the other thread renders a page that adds URI-cache entries
     add("r2-uricache-pb1", two_pages, 2, 0, 1, "pb", bound=1, limit=400,
